@@ -363,3 +363,42 @@ func HostileCrossKindID(t *rapid.T, cs consensus.State, blk *types.Block, pad bo
 	}
 	return desc
 }
+
+// HostileShape changes the shape of what a caller hands to the validation entry points rather than a value inside it:
+// the supplement gets fewer or more per-transaction entries than the block has v1 transactions (none at all: what a
+// node passes once v1 transactions are no longer allowed), and a v1 transaction is slipped into the block whatever
+// the era (with a supplement entry for it, or without). The block is decodable in every case.
+func HostileShape(t *rapid.T, blk *types.Block, bs *consensus.V1BlockSupplement) string {
+	desc := ""
+	if rapid.Bool().Draw(t, "slipV1") {
+		txn := types.Transaction{ArbitraryData: [][]byte{{0x5A, byte(rapid.IntRange(0, 255).Draw(t, "slipByte"))}}}
+		if rapid.Bool().Draw(t, "slipFee") {
+			txn.MinerFees = []types.Currency{types.NewCurrency64(1)}
+		}
+		at := rapid.IntRange(0, len(blk.Transactions)).Draw(t, "slipAt")
+		blk.Transactions = append(blk.Transactions[:at:at], append([]types.Transaction{txn}, blk.Transactions[at:]...)...)
+		if rapid.Bool().Draw(t, "slipSupp") && at <= len(bs.Transactions) {
+			bs.Transactions = append(bs.Transactions[:at:at], append([]consensus.V1TransactionSupplement{{}}, bs.Transactions[at:]...)...)
+			desc += "v1-transaction-slipped-in-with-supplement-entry; "
+		} else {
+			desc += "v1-transaction-slipped-in; "
+		}
+	}
+	switch rapid.IntRange(0, 4).Draw(t, "suppShape") {
+	case 0:
+		*bs = consensus.V1BlockSupplement{}
+		desc += "supplement=empty; "
+	case 1:
+		if len(bs.Transactions) > 0 {
+			bs.Transactions = bs.Transactions[:len(bs.Transactions)-1]
+			desc += "supplement-one-entry-short; "
+		}
+	case 2:
+		bs.Transactions = append(bs.Transactions, consensus.V1TransactionSupplement{})
+		desc += "supplement-one-entry-long; "
+	case 3:
+		bs.ExpiringFileContracts = nil
+		desc += "supplement-without-expiring-contracts; "
+	}
+	return desc
+}
